@@ -444,6 +444,7 @@ func checkC16(c *Ctx) {
 	c.Assume("only the absence of hidden state that survives a root-block boundary is decided (necessary for a block to parse the same on its own); that closing a block at end of input equals closing it because of the next line is behavioural, per block rule, and not decided")
 	ruleInlineParserStateless(c)
 	rulePhaseScratch(c)
+	ruleNulView(c)
 }
 
 // INLINE-STATELESS: the inline parser keeps nothing between Rewrite calls.
